@@ -153,6 +153,51 @@ def pair_rule(run, f, rid):
                 run.fail(rid, popfn + "/dec", b.loc(), "Steal::Success must decrement the shared len by exactly 1 (%s)" % why)
 
 
+def retry_rule(run, f, rid):
+    """A shared pop reports empty only on Steal::Empty: Steal::Retry (a concurrent operation got in the way, the injector may
+    still hold items) must go back to stealing from the same injector, never on to the next bucket / to `None`."""
+    from analysis.flow import variant_arms, bool_branch
+    run.rule(rid, "the shared pop retries on Steal::Retry (same injector) and reports empty only on Steal::Empty", floor=2, template="T6/T7")
+    for popfn in (OWS + "::pop", WS + "::pop"):
+        b = unit(run, rid, f, popfn)
+        if b is None:
+            continue
+        cfg = Cfg(b)
+        du = DefUse(b)
+        steals = find_calls(b, callee_is("crossbeam_deque::Injector::steal"))
+        if not steals:
+            run.fail(rid, popfn + "/retry", b.loc(), "no Injector::steal call found in the shared pop")
+            continue
+        advance = {x for (x, t) in b.calls() if norm(t.get("callee") or "").endswith("Iterator>::next") or norm(t.get("orig") or "").endswith("Iterator::next")}
+        rets = {blk["id"] for blk in b.blocks if blk["term"]["k"] == "return"}
+        why = None
+        for (sb, st) in steals:
+            retry_bb = None
+            # the bool form first: `if stolen.is_retry() { continue }` (a later `if let Success(..)` then never sees a Retry)
+            if True:
+                for (x, t) in b.calls():
+                    if norm(t.get("callee") or "") == "crossbeam_deque::Steal::is_retry" and st["dest"]["l"] in backward(b, t["args"][0], du, at=(x, "term")).locals:
+                        bb = bool_branch(b, cfg, du, t["dest"]["l"], cfg.after(x))
+                        if bb:
+                            retry_bb = bb[0]
+            if retry_bb is None:
+                va = variant_arms(b, cfg, du, value_root(du, st["dest"]["l"]), cfg.after(sb)) or variant_arms(b, cfg, du, st["dest"]["l"], cfg.after(sb))
+                if va and "Retry" in va[0]:
+                    retry_bb = va[0]["Retry"]
+            if retry_bb is None:
+                why = "the result of Injector::steal is not matched on Steal::Retry (a Retry is treated like Empty: the pop reports empty although the injector may hold items)"
+                break
+            back = sb in cfg.reachable({retry_bb}, avoid=advance | rets)
+            leak = bool((rets | advance) & cfg.reachable({retry_bb}, avoid={sb}))
+            if not back or leak:
+                why = "the Steal::Retry arm does not go back to stealing from the same injector (it reaches %s)" % ("the next bucket / a return" if leak else "no further steal")
+                break
+        if why:
+            run.fail(rid, popfn + "/retry", b.loc(steals[0][1]["line"]), why)
+        else:
+            run.ok(rid, popfn + "/retry", {"steal_sites": len(steals)})
+
+
 def self_steal_rule(run, f, rid):
     pass
 
@@ -313,6 +358,30 @@ def key_rule(run, f, rid):
             run.ok(rid, fn + "/own-priority", "item.priority().unwrap_or(0)")
         else:
             run.fail(rid, fn + "/own-priority", b.loc(), "push(item) must file the item under item.priority() (default 0) without arithmetic")
+    # clients of the ordered queues (scheduler, pool, event loop): an item is filed under its own priority -- either through
+    # push(item), or through push_with_priority(k, item) with k read from that item's priority without arithmetic
+    sites, bad = 0, []
+    for cb in f.bodies:
+        if cb.kind == "Promoted" or cb.npath.startswith(("common::ordered_work_steal::", "common::work_steal::")) or cb.npath.startswith("<common::"):
+            continue
+        cdu = None
+        for (x, t) in cb.calls():
+            c = norm(t.get("callee") or "")
+            if c in (OLQ + "::push", OWS + "::push"):
+                sites += 1
+            elif c in (OLQ + "::push_with_priority", OWS + "::push_with_priority"):
+                sites += 1
+                cdu = cdu or DefUse(cb)
+                ksl = backward(cb, t["args"][1], cdu, at=(x, "term"))
+                own = any(norm(tt.get("orig") or tt.get("callee") or "").endswith("Ordered::priority") for (_x, tt) in ksl.calls) or any(fl == "priority" for fl in getattr(ksl, "fields", []))
+                consts = [k for k in ksl.consts if k.get("v") is not None]
+                if not own or ksl.binops() or consts:
+                    bad.append((cb, t))
+    if bad:
+        cb, t = bad[0]
+        run.fail(rid, "clients/own-priority", cb.loc(t["line"]), "%s files an item in a priority queue under a key that is not that item's own priority (constant / computed key): it is then served out of priority order" % cb.npath)
+    else:
+        run.ok(rid, "clients/own-priority", {"push_sites_outside_the_queue_modules": sites})
 
 
 def evict_rule(run, f, rid):
